@@ -23,7 +23,8 @@ static std::vector<Bytes> g_ccmp, g_tkip;   // the unit tests' WPA2 captures (be
 static std::atomic<u64> g_ticket{0};
 
 struct OpLog { u64 t0, t1; int kind; };
-struct ThreadCtx { u64 seed; int first_kind; u32 nops; u64 digest = 0; std::vector<OpLog> log; std::vector<u64> per_op; bool stamp; };
+struct ThreadCtx { u64 seed; int first_kind; u32 nops; u64 digest = 0; std::vector<OpLog> log; std::vector<u64> per_op; bool stamp; std::vector<std::unique_ptr<PDU>> own; };      // own: this thread's private copies of packets every thread got a copy of
+static thread_local std::vector<std::unique_ptr<PDU>>* tl_own = nullptr;
 
 static const char* KIND[] = {"parse", "build-serialize", "dns-edit", "radiotap", "reassembly", "follower", "crypto", "addresses", "utils"};
 static const int NK = 9;
@@ -60,6 +61,16 @@ static u64 op_parse(Rng& r) {
     } catch (const malformed_packet&) { h = mix(h, 0xbad); }
     return h;
 }
+// copies of one original handed to different threads are independent objects: each thread copies, edits and destroys its own
+static u64 op_own_copies(Rng& r, u64 h) {
+    if (!tl_own || tl_own->empty()) return h;
+    for (u32 k = 1 + r.below(3); k--;) { std::unique_ptr<PDU>& mine = (*tl_own)[r.below((u32)tl_own->size())];
+        std::unique_ptr<PDU> c(mine->clone()); h = dig_pdu(*c, h);
+        if (TCP* t = c->find_pdu<TCP>()) { TCP t2(*t); t2 = *t; h = mix(h, t2.options().size()); if (!t->options().empty()) { TCP::option o = t->options().front(); TCP::option o2(o); o2 = o; h = mix(h, o2.data_size()); } }
+        if (r.chance(1, 2)) mine = std::move(c);      // the old copy dies on this thread
+        mark("build:own-copy-of-common-original"); }
+    return h;
+}
 static u64 op_build(Rng& r) {
     PktGen g(r); int rk = 0; std::unique_ptr<PDU> p(g.packet(&rk)); u64 h = dig_pdu(*p, 2); std::unique_ptr<PDU> c(p->clone()); h = dig_pdu(*c, h);
     // ... and parsed back from its own bytes through the entry point of its link type: generated packets nest tunnels, VLANs, label stacks, extension
@@ -70,7 +81,7 @@ static u64 op_build(Rng& r) {
             case 4: q.reset(new SLL(y.data(), (u32)y.size())); break; case 5: q.reset(new Loopback(y.data(), (u32)y.size())); break; default: if (!y.empty() && (y[0] >> 4) == 6) q.reset(new IPv6(y.data(), (u32)y.size())); else q.reset(new IP(y.data(), (u32)y.size())); }
         if (q) { h = dig_pdu(*q, h); mark("build:reparsed"); bool tunnel = false; int ipl = 0; for (const PDU* x = q.get(); x; x = x->inner_pdu()) if (x->pdu_type() == PDU::IP || x->pdu_type() == PDU::IPv6) ++ipl; tunnel = ipl >= 2; if (tunnel) mark("build:reparsed-with-ip-tunnel"); } }
       catch (const std::exception& e) { h = mix(h, fnv(std::string(typeid(e).name()))); } }
-    return h;
+    return op_own_copies(r, h);
 }
 static u64 op_dns(Rng& r) {
     DNS d; d.id((u16)r.next()); u64 h = 3;
@@ -164,7 +175,7 @@ static u64 run_op(int kind, Rng& r) {
     } catch (const std::exception& e) { if (tl_marks) ++(*tl_marks)[std::string("op_threw:") + KIND[kind] + ":" + typeid(e).name()]; return mix(0xdead, fnv(std::string(typeid(e).name()))); }
 }
 static void work(ThreadCtx& c) {
-    Rng r(c.seed); u64 h = 0;
+    Rng r(c.seed); u64 h = 0; tl_own = &c.own;
     for (u32 i = 0; i < c.nops; ++i) {
         int kind = i == 0 ? c.first_kind : (int)r.below(NK);
         u64 seed2 = r.next(); Rng r2(seed2);
@@ -184,14 +195,21 @@ int main(int argc, char** argv) {
         static const int ks[] = {2, 4, 8, 16};
         int k = ks[(idx / NK) % 4]; int first = (int)(idx % NK); u32 nops = st().a.tier == "thorough" ? 400 : 120;
         describe_case("threads=" + std::to_string(k) + " first-op=" + KIND[first] + " ops/thread=" + std::to_string(nops));
-        std::vector<ThreadCtx> ctx(k); for (int t = 0; t < k; ++t) { ctx[t].seed = r.next(); ctx[t].first_kind = first; ctx[t].nops = nops; ctx[t].stamp = true; }
+        // common originals (options with heap payloads among them); every thread, and later the sequential reference, gets its own copies made HERE
+        std::vector<std::unique_ptr<PDU>> protos;
+        { Rng pr(r.next()); for (int i = 0; i < 4; ++i) { PktGen g(pr); protos.emplace_back(g.packet()); }
+          TCP t(80, 81); Bytes big = pr.bytes(24); t.add_option(TCP::option((TCP::OptionTypes)30, big.begin(), big.end())); t.mss(1460); protos.emplace_back(new EthernetII(EthernetII() / IP("10.0.0.1", "10.0.0.2") / t / RawPDU("payload")));
+          DHCP d; d.domain_name("a-domain-name-longer-than-eight.example"); d.lease_time(77); d.end(); protos.emplace_back(new EthernetII(EthernetII() / IP("10.0.0.1", "10.0.0.2") / UDP(67, 68) / d));
+          Dot11Beacon b; b.ssid("an ssid of more than eight octets"); b.supported_rates(Dot11ManagementFrame::rates_type(10, 1.0f)); protos.emplace_back(new RadioTap(RadioTap() / b)); }
+        auto copies = [&](std::vector<std::unique_ptr<PDU>>& out) { out.clear(); for (auto& p : protos) out.emplace_back(p->clone()); };
+        std::vector<ThreadCtx> ctx(k); for (int t = 0; t < k; ++t) { ctx[t].seed = r.next(); ctx[t].first_kind = first; ctx[t].nops = nops; ctx[t].stamp = true; copies(ctx[t].own); }
         pthread_barrier_init(&g_bar, 0, k);
         std::vector<pthread_t> th(k); pthread_attr_t at; pthread_attr_init(&at); pthread_attr_setstacksize(&at, (size_t)64 << 20);
         for (int t = 0; t < k; ++t) pthread_create(&th[t], &at, thread_main, &ctx[t]);
         for (int t = 0; t < k; ++t) pthread_join(th[t], 0);
         pthread_barrier_destroy(&g_bar);
         // sequential reference: the same per-thread seeds, one after the other, on this thread
-        for (int t = 0; t < k; ++t) { ThreadCtx ref; ref.seed = ctx[t].seed; ref.first_kind = first; ref.nops = nops; ref.stamp = false; std::map<std::string, u64> marks; tl_marks = &marks; work(ref); tl_marks = nullptr; for (auto& m : marks) cnt(m.first, m.second);
+        for (int t = 0; t < k; ++t) { ThreadCtx ref; ref.seed = ctx[t].seed; ref.first_kind = first; ref.nops = nops; ref.stamp = false; copies(ref.own); std::map<std::string, u64> marks; tl_marks = &marks; work(ref); tl_marks = nullptr; for (auto& m : marks) cnt(m.first, m.second);
             if (ref.digest != ctx[t].digest) { size_t i = 0; while (i < ref.per_op.size() && ref.per_op[i] == ctx[t].per_op[i]) ++i; int kind = i < ctx[t].log.size() ? ctx[t].log[i].kind : -1;
                 violation(std::string("digest-differs/") + (kind >= 0 ? KIND[kind] : "?"), "thread " + std::to_string(t) + " of " + std::to_string(k) + ": operation #" + std::to_string(i) + " (" + (kind >= 0 ? KIND[kind] : "?") + ") produced a different result than the same call sequence run alone"); }
             else cnt("thread_digests_equal"); }
